@@ -9,7 +9,7 @@ import "fmt"
 // value (C12: exactly what the folder emits; C15: no invalid pointer conversion on the way).
 func genFoldPtrCustom(r *Rand, tier string, emit func(string)) {
 	for _, c := range [][3]string{{"@UF", "(1)", "(2)"}, {"@UO", "(3,s:65)", "(4,s:)"}, {"@UD", "5", "-6"},
-		{"@FP", "(7)", "(8)"}, {"@FV", "(9,s:61)", "(10,s:)"}, {"@FS", "11", "12"},
+		{"@FP", "(7)", "(8)"}, {"@FPN", "(14)", "(15)"}, {"@FV", "(9,s:61)", "(10,s:)"}, {"@FS", "11", "12"},
 		// pointer-shaped types with a registered fold function: held IN PLACE by an interface
 		{"@UFM", "{s:61=1,s:62=2}", "nil"}, {"@UFP", "(&13)", "(nil)"}} {
 		t, a, b := c[0], c[1], c[2]
